@@ -12,10 +12,20 @@ GENERATORS = []
 LEAN_MODULES = ["FimVerif.Proofs.C14"]
 P = "FimVerif.C14."
 THEOREMS = [P + t for t in (
-    "merge_union", "provenance_exact", "delegations_keyed_by_adm", "delegations_step", "merge_comm_partial",
-    "merge_comm_counterexample", "unmerge_inverse", "unmerge_inverse_reachable", "unmerge_total_on_reachable", "merge_iteration_order_irrelevant", "unmerge_inverse_counterexample_edge",
-    "unmerge_inverse_counterexample_id", "rollback_restores", "merge_sources_untouched")] + [
-    "FimVerif.Cbm.merge_step", "FimVerif.Cbm.merge_WF", "FimVerif.Cbm.unmerge_merge"]
+    # one merge
+    "merge_union", "delegations_step", "merge_comm_partial", "merge_comm_counterexample",
+    # all sequences / permutations of merges
+    "merge_sequence_union", "merge_first_wins_exact", "merge_succeeds_iff_compatible", "provenance_exact",
+    "delegations_keyed_by_adm", "merge_order_independent_up_to_first_wins",
+    # all histories
+    "history_invariant", "reachable_provenance_and_delegations", "remerge_counterexample",
+    # unmerge
+    "unmerge_removes_exactly", "unmerge_any_merged", "unmerge_never_merged_noop", "unmerge_inverse", "unmerge_inverse_reachable",
+    "unmerge_total_on_reachable", "unmerge_inverse_counterexample_edge", "unmerge_inverse_counterexample_id",
+    # rollback, sources, store
+    "rollback_restores", "merge_sources_untouched", "merge_iteration_order_irrelevant", "merge_on_networkx_store")] + [
+    "FimVerif.Cbm.merge_step", "FimVerif.Cbm.merge_WF", "FimVerif.Cbm.unmerge_merge", "FimVerif.Cbm.unmerge_step",
+    "FimVerif.Cbm.Tracks.merge", "FimVerif.Cbm.Tracks.unmerge", "FimVerif.Cbm.WInv.step", "FimVerif.Cbm.mergeN_succeeds_iff"]
 TRUSTED_BASE = [
     "Model/Cbm.lean mirrors merge_adm / unmerge_adm / _update_node_delegations / rewrite_delegations / snapshot / rollback at the "
     "level of the abstract graph interface (nodes keyed by NodeID, undirected edges between NodeIDs); checked differentially on "
